@@ -957,7 +957,9 @@ class Conv:
             return r
         if name in ("cos", "sin"):
             if isinstance(a, Fraction):
-                raise Unsupported("cos/sin of a non-zero constant")
+                # cos / sin of a non-zero rational constant: an opaque real constant (no relation between the two is used)
+                i = self._opaque_var("T" + name, x, [self.const(a)])
+                return Frac(Fraction(1), self.ring.gen(i))
             cc, ss = self.one, self.zero
             for atom, co in lincomb(a).items():
                 if co == 0:
